@@ -44,6 +44,11 @@
 // event Bt(r); in sched configurations this combines with parked fetches (Pg).
 // Option twins=K: audit of the canonical form, see dvsim/twins.go. Option devs=flight: Xq/Fd is the
 // only delivery deviation.
+// Option reply=split: for the Data of Xq the neighbour's advertDataOnInterest is suspended where it
+// releases dv.mutex (advertisement taken, not yet encoded) until Fd; C18.adv then also requires that
+// what is sent is the router's advertisement as taken or as it is at that moment. Option
+// wire=reused: the memory of every advertisement Data is overwritten once the requester has
+// processed it. See dvsim/split.go.
 //
 // Clauses: C18.adv (every transition: no advertisement entry, on the wire or in Rib.Advert(), with
 // Cost >= 16), C18.dist / C18.withdraw (every fixed point: costs = BFS hop distances of the live
@@ -82,6 +87,8 @@ type sys struct {
 	flight bool
 	// noPark: the parked-fetch deviations Pg / To are not generated (configurations "devs=flight")
 	noPark bool
+	// initCrash: the code under test panicked while the initial state was being built
+	initCrash string
 	// twins: audit of the canonical form (configurations "twins=K": every K-th canonical state)
 	twins *dvsim.TwinAudit
 	// window: the restart event RSw / Bt (boot window) is generated (configurations "restart=window")
@@ -416,6 +423,15 @@ func (y *sys) Apply(i any, op explore.Op) []report.Violation {
 			v = append(v, report.Violation{Clause: "C18.adv", Key: "advertisement lists a destination at or above infinity", Detail: a})
 		}
 	}
+	if y.initCrash != "" {
+		v = append(v, report.Violation{Clause: "C18.panic", Key: y.initCrash + " (round-robin exchanges from the cold start, before the first event of the configuration)", Detail: y.initCrash})
+	}
+	for _, a := range s.AdvTorn {
+		if !seen["torn"] {
+			seen["torn"] = true
+			v = append(v, report.Violation{Clause: "C18.adv", Key: "advertisement Data is not the router's advertisement in any state between fetch and reply (it changed underneath the handler after dv.mutex was released)", Detail: a})
+		}
+	}
 	for _, nd := range y.m.Nondet {
 		v = append(v, report.Violation{Clause: "C18.unique", Key: "the same event history yields different tables when re-executed (map-iteration order)", Detail: nd})
 	}
@@ -497,6 +513,21 @@ func (y *sys) CheckState(i any) []report.Violation {
 	}
 	y.trace.Closure(h, maxRounds)
 	return v
+}
+
+// crashSite names the innermost frames of the code under test on the stack of a recovered panic.
+func crashSite() string {
+	var out []string
+	for _, l := range strings.Split(string(debug.Stack()), "\n") {
+		if strings.HasPrefix(l, "github.com/named-data/ndnd/") && len(out) < 3 {
+			f := strings.TrimPrefix(l, "github.com/named-data/ndnd/")
+			if i := strings.LastIndex(f, "("); i > 0 {
+				f = f[:i]
+			}
+			out = append(out, f)
+		}
+	}
+	return strings.Join(out, " < ")
 }
 
 // permutations returns the first max permutations of 0..n-1 in lexicographic order.
@@ -596,6 +627,12 @@ func build(cfg string) explore.System {
 		if p == "names=nested" {
 			opt.Nested = true
 		}
+		if p == "reply=split" {
+			opt.SplitReply = true
+		}
+		if p == "wire=reused" {
+			opt.ReuseWire = true
+		}
 		if p == "flight" {
 			y.flight = true // delivery deviation Xq/Fd on a graph it is not enabled on by default
 		}
@@ -640,7 +677,18 @@ func build(cfg string) explore.System {
 			s.Parallel[e] = true
 		}
 		if fam == "fault" || fam == "faultmid" {
-			converge(s) // these families start from the fixed point of the initial topology
+			// these families start from the fixed point of the initial topology. If the code under
+			// test panics on the way there, the configuration starts from wherever that left the
+			// routers and every transition reports the panic (C18.panic).
+			func() {
+				defer func() {
+					if r := recover(); r != nil {
+						y.initCrash = fmt.Sprintf("panic %v @ %s", r, crashSite())
+						vsched.Reset()
+					}
+				}()
+				converge(s)
+			}()
 		}
 	}
 	y.m = dvsim.NewMachineOpt(g, init, applyOp, opt, "C18|"+cfg)
@@ -654,7 +702,7 @@ func build(cfg string) explore.System {
 			return out
 		}}
 	}
-	y.m.Probe(func(s *dvsim.Sim) []string {
+	y.m.ProbeSafe(func(s *dvsim.Sim) []string {
 		var def, dev []string
 		for _, o := range y.ops(s) {
 			if o.Dev {
@@ -736,8 +784,13 @@ func configs(th bool) []explore.Config {
 		sched("n2:01", 1, 0)
 		sched("n3:01-02 twins=4", 1, 0)
 		// router names in a prefix relation (/ndn/r0, /ndn/r0/x1, /ndn/r0/x1/x2, ...)
-		sched("n3:01-02 names=nested", 1, 0)
-		fault("n4:01-03-12 names=nested", 2)
+		// reply=split: the neighbour's advertDataOnInterest is suspended where it releases dv.mutex
+		// (advertisement taken, not yet encoded) for as long as the Data of Xq is in flight;
+		// wire=reused: the memory of every advertisement Data is overwritten once the requester has
+		// processed it. Neither changes the state space of code that keeps values of its own, so they
+		// ride on configurations that exist anyway (the plain `sched n3:01-02` above stays without).
+		sched("n3:01-02 names=nested reply=split wire=reused", 1, 0)
+		fault("n4:01-03-12 names=nested wire=reused", 2)
 		// network names with two and three components
 		sched("n2:01 net=/ndn/edu", 1, 0)
 		sched("n3:01-02 net=/ndn/edu/cs", 0, 0)
@@ -754,7 +807,7 @@ func configs(th bool) []explore.Config {
 		// Restart into the boot window of Router.Start (handlers registered, own RIB entry not yet
 		// added) from the cold start: a fetch parked at the neighbour (deviation Pg) is answered by the
 		// new process with an advertisement that lists nothing.
-		sched("n2:01 restart=window twins=1", 2, 0)
+		sched("n2:01 restart=window reply=split wire=reused twins=1", 2, 0)
 		// faults from the fixed point: <= 2 fault / repair events per history
 		for _, g := range append(append([]string{}, all...), line5) {
 			if !heavyFault[g] {
@@ -766,9 +819,9 @@ func configs(th bool) []explore.Config {
 			}
 		}
 		// several topology changes between two fetches of one neighbour
-		faultMid("n4:01-02-03", "03", 2)         // star: leaf 3 joins while leaf 1 or 2 is lost
-		faultMid("n4:01-03-12", "12", 2)         // line 3-0-1-2: router 2 joins at the far end
-		faultMid("n3:01-02-12", "12 twins=4", 2) // triangle with one side missing at first
+		faultMid("n4:01-02-03", "03", 2)             // star: leaf 3 joins while leaf 1 or 2 is lost
+		faultMid("n4:01-03-12", "12 wire=reused", 2) // line 3-0-1-2: router 2 joins at the far end
+		faultMid("n3:01-02-12", "12 twins=4", 2)     // triangle with one side missing at first
 		// Count-to-infinity after a loss takes dozens of events on meshed graphs, more than the
 		// breadth-first search reaches: single faults, every order of the first 3 events, then the
 		// closing schedule under EVERY order of the routers (which neighbour withdraws first decides
@@ -831,9 +884,12 @@ func configs(th bool) []explore.Config {
 		e := strings.Count(g, "-") + 1
 		switch {
 		case e <= 3:
-			sched(g, 2, 0)
+			if strings.HasPrefix(g, "n2") || strings.HasPrefix(g, "n3") {
+				sched(g, 2, 0) // the whole real handler produces the Data of Xq
+			}
+			sched(g+" reply=split wire=reused", 2, 0)
 		case e <= 4:
-			sched(g, 1, 0)
+			sched(g+" reply=split wire=reused", 1, 0)
 		}
 	}
 	// single faults, every order of the first 4 events, closing schedule under every router order
@@ -878,8 +934,8 @@ func configs(th bool) []explore.Config {
 	// audit of the canonical form and boot-window restarts (see the quick tier)
 	sched("n3:01-02-12 devs=flight twins=1", 0, 0)
 	sched("n3:01-02-12 devs=flight twins=16", 2, 0)
-	sched("n2:01 restart=window twins=1", 3, 0)
-	sched("n3:01-02 restart=window twins=8", 2, 0)
+	sched("n2:01 restart=window reply=split wire=reused twins=1", 3, 0)
+	sched("n3:01-02 restart=window reply=split wire=reused twins=8", 2, 0)
 	fault("n3:01-02 restart=window twins=1", 3)
 	fault("n3:01-02-12 restart=window twins=4", 3)
 	fault("n4:01-03-12 restart=window twins=16", 2)
@@ -890,7 +946,7 @@ func configs(th bool) []explore.Config {
 	hold("n4:01-02-03", 2, 6)
 	hold("n4:01-03-12", 2, 6)
 	faultMid("n4:01-02-03", "03", 3)
-	faultMid("n4:01-03-12", "12", 3)
+	faultMid("n4:01-03-12", "12 wire=reused", 3)
 	faultMid("n3:01-02-12", "12", 3)
 	faultMid("n4:02-03-12-13", "13", 2)
 	faultMid("n5:01-12-23-34", "34", 2)
@@ -924,7 +980,7 @@ func configs(th bool) []explore.Config {
 	}
 	for _, g := range all {
 		if strings.HasPrefix(g, "n3") || g == "n4:02-03-12-13" {
-			c = append(c, explore.Config{Name: "faultany " + g, MaxDepth: 400, MaxDev: 2})
+			c = append(c, explore.Config{Name: "faultany " + g + " wire=reused", MaxDepth: 400, MaxDev: 2})
 		}
 	}
 	return c
@@ -980,7 +1036,8 @@ func main() {
 		Rule: "BFS to a fixpoint over event histories on N real dv.Router objects per topology; every transition checks C18.adv, every fixed point C18.dist / C18.withdraw; the recorded state graph is then analysed in the parent for C18.fix (terminal states, bottom SCCs, fair cycles, longest path) and C18.unique (one routing table per live topology)",
 		Assumptions: []string{
 			"the harness network delivers a sync Interest of router j to router i only over a live link (i,j), in order, and never delivers an outdated one; Data for an advertisement fetch comes from the addressed neighbour",
-			"tasks spawned by one event (go statements of dv/dv and std/sync) run to quiescence in FIFO order before the next event; tasks of different routers share no state, tasks of one router hold dv.mutex for their whole body (advertDataFetch excepted: it only reads the neighbour table before expressing an Interest)",
+			"tasks spawned by one event (go statements of dv/dv and std/sync) run to quiescence in FIFO order before the next event; tasks of different routers share no state, tasks of one router hold dv.mutex for their whole body (advertDataFetch excepted: it only reads the neighbour table before expressing an Interest; advertDataOnInterest excepted: it encodes and sends the advertisement it took after releasing the mutex - configurations reply=split suspend it at that point for as long as the Data of the deviation Xq is in flight, using a copy of its second half that is checked against the source and against the real handler's output)",
+			"memory: every packet is handed to the router in memory of its own (as engine/basic does); configurations wire=reused overwrite an advertisement Data after the requester's handler and the tasks it spawned have run (NeighborState.Advert, which points into it, is only read by the ribUpdate spawned for it; not used in the hold family)",
 			"clock abstraction: IsDead is only evaluated right after a step longer than RouterDeadInterval in which exactly the live neighbours sent heartbeats (event Dc). Router restarts: RS(r) replaces the process by a fresh dv.NewRouter of the same name one virtual second later (the neighbours keep the entry of the previous incarnation), RUs(r) / RU(r) bring a stopped router back ten seconds / a minute after the last event; whether the new incarnation's sequence numbers exceed the old ones is left to the code (a neighbour entry whose number is ahead of the router's is part of the canonical state, with its margin). RSw(r) (configurations restart=window) stops the new process between register() and the insertion of its own RIB entry until the default event Bt(r); inside that window only messages are delivered (no dead check, no further fault)",
 			"equal canonical state (live topology, neighbour tables with sequence numbers as relations, RIB costs below infinity, parked fetches) implies equal futures; audited by the twins=K configurations (every K-th canonical state reached by two histories: every enabled operation, deviations included, is executed from both and the canonical successors must agree, else CHECK-ERROR)",
 			"fault configurations start from the fixed point of the intact topology and inject faults in fixed points only (thorough adds faultany configurations: cold start, faults in every state); the number of fault/repair events per history is bounded (2 quick, 3 thorough); delivery deviations (parked / timed-out fetch) are bounded (1 quick, 2 thorough) and used on graphs with <= 3 (quick) / <= 4 (thorough) links",
@@ -993,6 +1050,7 @@ func main() {
 		Extra: func(rep *report.Reporter, cov report.Coverage) {
 			dvsim.AnalyseC18(rep, cov)
 			cov["configs_computed_by_plain_reexecution_after_restore_mismatch"] = dvsim.FallbackConfigs("C18")
+			cov["split_advertisement_handler"] = dvsim.SplitReplyNote()
 		},
 	})
 }
